@@ -684,7 +684,8 @@ class CSVUnpacker(WBUnpacker):
         if file_object:
             self.the_file = cast(IO[str], file_object)
         else:
-            self.the_file = name.open(mode=Mode.TEXT)
+            # The csv module wants newline="": otherwise a CR or CRLF inside a quoted cell is read as LF.
+            self.the_file = name.open(mode=Mode.TEXT, newline="")
 
     def close(self) -> None:
         """Close the CSV file."""
